@@ -20,7 +20,9 @@ import (
 	"github.com/btcsuite/btclog"
 	"github.com/btcsuite/btcwallet/walletdb"
 	_ "github.com/btcsuite/btcwallet/walletdb/bdb"
+	"github.com/btcsuite/btcd/chainhash/v2"
 	"github.com/lightninglabs/neutrino"
+	"github.com/lightninglabs/neutrino/chainsync"
 	"github.com/lightninglabs/neutrino/headerfs"
 
 	"verifharness/kit"
@@ -51,6 +53,10 @@ type Config struct {
 	AfterStart func(s *Sim)
 	// KeepDir: do not delete the data directory (caller does).
 	KeepDir bool
+	// HardCF: hard-coded filter-header checkpoints of the generated
+	// network (height -> value), installed through the verif-tagged setter
+	// in chainsync for the duration of the run.
+	HardCF map[uint32]chainhash.Hash
 }
 
 type Sim struct {
@@ -407,6 +413,15 @@ func Run(t *testing.T, cfg Config, setup func(s *Sim), script func(s *Sim)) (res
 	}()
 
 	resetYield()
+	if len(cfg.HardCF) > 0 {
+		m := map[uint32]*chainhash.Hash{}
+		for h, x := range cfg.HardCF {
+			x := x
+			m[h] = &x
+		}
+		chainsync.VerifSetFilterHeaderCheckpoints(w.Params.Net, m)
+		defer chainsync.VerifSetFilterHeaderCheckpoints(w.Params.Net, nil)
+	}
 	synctest.Test(t, func(t *testing.T) {
 		s.gate = make(chan struct{})
 		raw, err := OpenDB(dir, false)
